@@ -30,7 +30,28 @@ PERSISTENT = [b for b in gen.BACKENDS if gen.persistent(b)] + [
 # =========================================================================================
 # child side
 
+class MainPoint(object):
+    """when this module runs as the writer program (python -m kv.procmon) this class lives in __main__: the kind
+    of value a script or notebook stores. A reader that is a *different program* must still get it back."""
+    def __init__(self, x, y):
+        self.x, self.y = x, y
+
+    def __eq__(self, o):
+        return type(o).__name__ == 'MainPoint' and (o.x, o.y) == (self.x, self.y)
+
+    def __hash__(self):
+        return hash((self.x, self.y))
+
+
+def c04_value(archmon, spec):
+    if isinstance(spec, dict) and '__mp__' in spec:
+        return MainPoint(*spec['__mp__'])
+    return archmon.make_value(spec)
+
+
 def report_value(v):
+    if type(v).__name__ == 'MainPoint':
+        return {'__mp__': [enc(v.x), enc(v.y)]}
     if callable(v):
         try:
             return {'__fncall__': enc(v(1))}
@@ -104,7 +125,12 @@ def spawn(job, root, name, env_extra=None, timeout=120):
     with open(jp, 'w') as f:
         json.dump(job, f)
     env = child_env(**(env_extra or {}))
-    p = subprocess.run([PY, '-m', 'kv.procmon', jp], env=env, cwd=root, timeout=timeout,
+    if job.get('job') == 'c04-read':
+        # a reader is another program: its __main__ is not the writer's
+        cmd = [PY, '-c', 'import sys; from kv import procmon; procmon.child_main(sys.argv[1])', jp]
+    else:
+        cmd = [PY, '-m', 'kv.procmon', jp]
+    p = subprocess.run(cmd, env=env, cwd=root, timeout=timeout,
                        stdout=subprocess.PIPE, stderr=subprocess.STDOUT)
     if p.returncode != 0 or not os.path.exists(job['out']):
         return {'child_failed': p.stdout.decode('utf-8', 'replace')[-800:]}
@@ -123,14 +149,14 @@ def c04_writer(klepto, archmon, job):
     for i, op in enumerate(job['ops']):
         o = op[0]
         if o == 'set':
-            k, v = dec(op[1]), archmon.make_value(dec(op[2]))
+            k, v = dec(op[1]), c04_value(archmon, dec(op[2]))
             a[k] = v
             if isinstance(v, list):
                 v.append('mutated-after-store')
             elif isinstance(v, dict):
                 v['mutated-after-store'] = 1
         elif o == 'update':
-            a.update(dict((dec(k), archmon.make_value(dec(v))) for k, v in op[1]))
+            a.update(dict((dec(k), c04_value(archmon, dec(v))) for k, v in op[1]))
         elif o == 'del':
             try:
                 del a[dec(op[1])]
@@ -346,7 +372,10 @@ def gen_case_c04(rng):
             ops.append(['set', enc(keys[0]), enc(rng.choice([10, 11, 12, 13, 'aa', 'bb', 'cc']))])
             ops.append(['check', rng.random() < 0.15])
             continue
-        if r < 0.45:
+        pickles = b['kind'] in ('file', 'dir') and b.get('serialized', True) and b.get('protocol') != 'json'
+        if r < 0.45 and pickles and rng.random() < 0.2:
+            ops.append(['set', enc(k), {'__mp__': [u(), rng.choice(['a', 2.5, None])]}])    # instance of a __main__ class
+        elif r < 0.45:
             ops.append(['set', enc(k), enc(archmon.value_pool(b, rng, u))])
         elif r < 0.55:
             ops.append(['update', [[enc(x), enc(archmon.value_pool(b, rng, u))] for x in rng.sample(keys, min(2, len(keys)))]])
@@ -407,6 +436,8 @@ def expected_report(M):
         vv = dec(v)
         if isinstance(vv, dict) and '__fn__' in vv:
             rv = {'__fncall__': enc(1 + vv['__fn__'])}
+        elif isinstance(vv, dict) and '__mp__' in vv:
+            rv = {'__mp__': [enc(x) for x in vv['__mp__']]}
         else:
             rv = enc(vv)
         out.append([enc(dec(k)), rv])
